@@ -43,8 +43,11 @@ SPEC = dict(
                 "per-batch function, whatever state it started from. Tie: 54 tick programs "
                 "(all operators, defer_tick, tick cycles, across_ticks) compiled through FlowBuilder::generate_embedded, run "
                 "tick by tick with random batches; every tick's output is diffed with the Lean driver and checked on the real "
-                "code against plain Rust iterators and against a fresh single-tick instance (state leak); added in review, "
-                "ORACLE ONLY (no theorem): every case is also driven through the runtime's own scheduler (run_available_sync "
+                "code against plain Rust iterators and against a fresh single-tick instance (state leak); added in review: "
+                "`lazyDefer_does_not_schedule_tick` — on a hand-transcribed model of run_available_sync + the end-of-tick "
+                "schedule test of the generated tick closure (only NON-lazy tick-boundary handoffs set can_start_tick), a "
+                "program all of whose handoffs are lazy (what DeferTick lowers to) runs exactly one tick per run_available "
+                "call however much deferred data is pending; tied to the code by an ORACLE only: every case is also driven through the runtime's own scheduler (run_available_sync "
                 "per fed batch instead of run_tick_sync) and must run exactly one tick per step — data parked in a "
                 "defer_tick_lazy handoff (DeferTick, tick cycles) does not schedule a tick by itself — and give the same "
                 "per-step outputs, i.e. the deferred values arrive exactly in the next tick that runs; (T) the lowering "
@@ -52,9 +55,9 @@ SPEC = dict(
                 "(theorem lowering_table_matches of C28)."),
     level_note=("Trusted / not modelled: per-tick semantics of the DFIR operators transcribed by hand (tied by correspondence); "
                 "one tick cycle of element type i64 per program; max/min are instances of reduce; hash order of keyed fold output canonicalised by sorting; ticks are driven explicitly by "
-                "run_tick_sync in the model; the lazy scheduling of defer_tick_lazy (which handoffs set can_start_tick is decided "
-                "in dfir_lang meta_graph.rs) is checked by the run_available oracle on the real code only, with input streams "
-                "that never wake the runtime; keyed collections inside a tick other than fold_keyed are not modelled."),
+                "run_tick_sync in the model; the scheduler model behind lazyDefer_does_not_schedule_tick (run_available_sync, "
+                "the `if false || !buf.is_empty()` test of meta_graph.rs, which handoffs are lazy) is transcribed by hand and "
+                "tied only by the run_available oracle on the real code, with input streams that never wake the runtime; keyed collections inside a tick other than fold_keyed are not modelled."),
     trusted_base=["per-tick semantics of DFIR operators with 'tick persistence transcribed from dfir_lang/src/graph/ops",
                   "harness/hv_hydro/gen_programs.py maps tick terms to Rust programs (reproducibility checked each run)",
                   "DFIR sort() modelled as List.mergeSort under Ord of i64/tuples"],
